@@ -143,6 +143,7 @@ class L2:
         self.world = w = World(scenario, seed=seed, keep_events=False)
         w.manual = True
         self.sequence = 0
+        self.stepping_pushed_at = None
         self.identifiers = [f"{s['ip']}:{s['port']}" for s in specs]
         self.local_identifier = self.identifiers[0]
         self.puppets = {}
@@ -176,7 +177,12 @@ class L2:
 
     def step(self, proxy):
         self.tick_seq()
-        proxy.step()
+        # when the message about to be processed was queued (a real thread would not have kept it that long)
+        self.stepping_pushed_at = proxy.ready[0] if proxy.ready else self.world.now
+        try:
+            proxy.step()
+        finally:
+            self.stepping_pushed_at = None
 
     def drain(self, limit=200):
         n = 0
